@@ -2,21 +2,121 @@
   TT.Lemmas.RecvSim — simulation between the receiver model and the reference bookkeeping
   (`Spec`) over arbitrary histories. Main results: `recv_state_is_spec`, `recv_verdict`.
 -/
-import TT.Model.History
+import TT.Lemmas.RecvDefs
+import TT.Lemmas.RecvSimStep
 
 namespace TT
 
-def Sys.init (w₀ : World) : Sys := { σ := { r := {}, w := w₀ } }
 
-def lookupEq {α : Type} (a b : AMap Nat α) : Prop := ∀ k, a.get k = b.get k
 
-/-- What the receiver reports for an event, as a function of the bookkeeping alone. -/
-def Spec.verdict (sp : Spec) (e : Event) : Option RErr := (sp.invalid e).head?
+/-! ### Invariant over receiver chains -/
 
-def Res.verdict : Res → Option (Option RErr)
-  | .ok _ => some none
-  | .err r _ => some (some r)
-  | .panic _ _ => none
+/-- What was persisted last agrees with the bookkeeping at the last commit. -/
+structure InvP (pm : PersistedMeta) (ps : PersistedSpans) (sp : Spec) : Prop where
+  spansEq : ∀ k, AMap.get ps k = AMap.get sp.alive k
+  spansND : (AMap.keys ps).Nodup
+  metaEq : ∀ k, AMap.get pm k = AMap.get sp.known k
+  metaND : (AMap.keys pm).Nodup
+  wf : SpecWF sp
+
+def Inv (s : Sys) (ss : SpecSys) : Prop :=
+  InvCur s.σ ss.cur ∧ InvP s.lastPm s.lastPs ss.persisted
+
+theorem MtOK.nil (arena : List CallSite) : MtOK [] arena (fun _ => none) :=
+  ⟨fun _ => rfl, List.nodup_nil, fun k i h => by simp [AMap.get_nil] at h⟩
+
+theorem restore_inv {pm : PersistedMeta} {ps : PersistedSpans} {sp : Spec} (hp : InvP pm ps sp)
+    (loc : AMap Nat Nat) (w : World)
+    (hl : ∀ k h, AMap.get loc k = some h → AMap.contains sp.alive k = true) :
+    InvCur (restore pm ps loc w) sp := by
+  have key := restore_fold pm { r := { spans := ps, loc := loc }, w := w } (fun _ => none)
+    (MtOK.nil w.arena) hp.metaND
+  unfold restore InvCur
+  refine ⟨?_, ?_, key.1.congr ?_, hp.wf, ?_⟩
+  · rw [key.2.1]; exact hp.spansEq
+  · rw [key.2.1]; exact hp.spansND
+  · intro k
+    rw [← hp.metaEq k]
+    cases AMap.get pm k <;> rfl
+  · rw [key.2.2]; exact hl
+
+theorem InvCur.toInvP {σ : Sigma} {sp : Spec} (h : InvCur σ sp) :
+    InvP (persistMeta σ) σ.r.spans sp := by
+  refine ⟨h.spansEq, h.spansND, ?_, ?_, h.wf⟩
+  · intro k
+    unfold persistMeta
+    rw [AMap.get_mapVal]
+    exact h.mtok.get k
+  · unfold persistMeta
+    rw [AMap.keys_mapVal]
+    exact h.mtok.nd
+
+theorem InvP.empty : InvP [] [] {} :=
+  ⟨fun _ => rfl, List.nodup_nil, fun _ => rfl, List.nodup_nil, SpecWF.empty⟩
+
+theorem Inv.init (w₀ : World) : Inv (Sys.init w₀) {} := by
+  refine ⟨?_, InvP.empty⟩
+  exact ⟨fun _ => rfl, List.nodup_nil, MtOK.nil _, SpecWF.empty,
+    fun k h hg => by simp [Sys.init, AMap.get_nil] at hg⟩
+
+/-- Proviso of one operation. -/
+def opOK (ss : SpecSys) (op : HOp) : Bool :=
+  match op with
+  | .ev (.newSpan id _ _ _) => !ss.cur.alive.contains id
+  | _ => true
+
+theorem opOK_ev {ss : SpecSys} {e : Event} (h : opOK ss (.ev e) = true) :
+    evOK ss.cur e = true := by
+  cases e <;> first | rfl | exact h
+
+theorem Inv.verdict {s : Sys} {ss : SpecSys} (h : Inv s ss) (e : Event)
+    (hno : opOK ss (.ev e) = true) :
+    (tryReceive s.σ e).verdict = some (ss.cur.verdict e) := by
+  rcases step_ev h.1 e (opOK_ev hno) with ⟨hi, σ', ht, _⟩ | ⟨r, rest, hi, ht⟩
+  · rw [ht]; simp [Res.verdict, Spec.verdict, hi]
+  · rw [ht]; simp [Res.verdict, Spec.verdict, hi]
+
+theorem Inv.step {s : Sys} {ss : SpecSys} (h : Inv s ss) (op : HOp)
+    (hno : opOK ss op = true) : Inv (s.step op) (ss.step op) := by
+  cases op with
+  | ev e =>
+    rcases step_ev h.1 e (opOK_ev hno) with ⟨hi, σ', ht, hinv⟩ | ⟨r, rest, hi, ht⟩
+    · simp only [Sys.step, SpecSys.step, ht, hi, List.isEmpty_nil, if_true, Res.state]
+      exact ⟨hinv, h.2⟩
+    · simp only [Sys.step, SpecSys.step, ht, hi, List.isEmpty_cons, Res.state]
+      exact h
+  | persist mode =>
+    have hp := h.1.toInvP
+    cases mode
+    · exact ⟨restore_inv hp _ _ h.1.locSub, hp⟩
+    · exact ⟨restore_inv hp _ _ (fun k hh hg => by simp [AMap.get_nil] at hg), hp⟩
+    · exact ⟨restore_inv hp _ _ (fun k hh hg => by simp [AMap.get_nil] at hg), hp⟩
+  | discard =>
+    exact ⟨restore_inv h.2 _ _ (fun k hh hg => by simp [AMap.get_nil] at hg), h.2⟩
+
+theorem noReannounceFrom_cons (ss : SpecSys) (op : HOp) (ops : List HOp) :
+    noReannounceFrom ss (op :: ops) = (opOK ss op && noReannounceFrom (ss.step op) ops) := by
+  cases op with
+  | ev e => cases e <;> rfl
+  | persist m => rfl
+  | discard => rfl
+
+theorem Inv.run {s : Sys} {ss : SpecSys} (h : Inv s ss) (ops : List HOp)
+    (hno : noReannounceFrom ss ops = true) : Inv (runHistory s ops) (runSpec ss ops) := by
+  induction ops generalizing s ss with
+  | nil => exact h
+  | cons op ops ih =>
+    rw [noReannounceFrom_cons, Bool.and_eq_true] at hno
+    exact ih (h.step op hno.1) hno.2
+
+theorem noReannounceFrom_append (ss : SpecSys) (ops : List HOp) (op : HOp) :
+    noReannounceFrom ss (ops ++ [op])
+      = (noReannounceFrom ss ops && opOK (runSpec ss ops) op) := by
+  induction ops generalizing ss with
+  | nil => simp [noReannounceFrom_cons, noReannounceFrom, runSpec]
+  | cons o ops ih =>
+    rw [List.cons_append, noReannounceFrom_cons, noReannounceFrom_cons, ih, Bool.and_assoc]
+    rfl
 
 theorem recv_state_is_spec (w₀ : World) (ops : List HOp) (hno : noReannounceFrom {} ops = true) :
     let s := runHistory (Sys.init w₀) ops
@@ -24,12 +124,15 @@ theorem recv_state_is_spec (w₀ : World) (ops : List HOp) (hno : noReannounceFr
     lookupEq s.σ.r.spans ss.cur.alive ∧ (s.σ.r.spans.map (·.1)).Nodup ∧
     lookupEq (persistMeta s.σ) ss.cur.known ∧ ((persistMeta s.σ).map (·.1)).Nodup ∧
     lookupEq s.lastPs ss.persisted.alive ∧ lookupEq s.lastPm ss.persisted.known := by
-  sorry
+  have h := (Inv.init w₀).run ops hno
+  have hp := h.1.toInvP
+  exact ⟨h.1.spansEq, h.1.spansND, hp.metaEq, hp.metaND, h.2.spansEq, h.2.metaEq⟩
 
 theorem recv_verdict (w₀ : World) (ops : List HOp) (e : Event)
     (hno : noReannounceFrom {} (ops ++ [.ev e]) = true) :
     (tryReceive (runHistory (Sys.init w₀) ops).σ e).verdict
       = some ((runSpec {} ops).cur.verdict e) := by
-  sorry
+  rw [noReannounceFrom_append, Bool.and_eq_true] at hno
+  exact ((Inv.init w₀).run ops hno.1).verdict e hno.2
 
 end TT
